@@ -5,7 +5,8 @@ from vlib import core, twoconf
 
 PROP = 'C02'
 MODEL_MODULES = ['TenpyModel.Util.J', 'TenpyModel.Core.Codec', 'TenpyModel.C02.Struct']
-PROPS_MODULES = ['TenpyModel.C02.Props', 'TenpyModel.C02.PropsMerge', 'TenpyModel.C02.PropsHistory']
+PROPS_MODULES = ['TenpyModel.C02.Props', 'TenpyModel.C02.PropsSlice', 'TenpyModel.C02.PropsMerge',
+                 'TenpyModel.C02.PropsCtor', 'TenpyModel.C02.PropsHistory']
 LEVEL = 'proof'
 BUDGET = {'quick': 175, 'thorough': 1700}
 RULE = ('random HISTORIES of public Array operations (<=10 steps quick, <=25 thorough; ~50 operations incl. in-place '
@@ -131,8 +132,7 @@ def evaluate(ctx, cases, use_model=True, configs=('cy', 'py'), nproc=None):
                     res.count('init-rank=%d' % len(t['legs']))
             for f in r['fails'][:1]:
                 key = (f['op'], f['what'], f.get('tag'))
-                both = all(key in fsets.get(c, ()) for c in configs)
-                suffix = '' if both or len(configs) == 1 else f'[{cfg}]'
+                suffix = ''   # (kernel-specific defect sites are told apart by the step tag, not by a suffix)
                 if f['what'] == 'generator-invalid':
                     res.fail('correspondence', 'c02.generator-invalid', f['detail'], case)
                 else:
@@ -150,7 +150,7 @@ def evaluate(ctx, cases, use_model=True, configs=('cy', 'py'), nproc=None):
                 if d is None:
                     continue
                 kind, sig, detail = d
-                res.fail(kind, sig if kind == 'correspondence' else sig + ('' if len(configs) == 1 else f'[{cfg}]'),
+                res.fail(kind, sig,
                          f'[{cfg}] step {k} {st["op"]}: {detail}',
                          minimal_case(case, dict(init=r['init'], steps=r['steps'][:k + 1])))
                 break
@@ -189,6 +189,11 @@ def diff_step(st, rec, m):
         return ('correspondence', f'c02.model-vs-impl.{op}.scalar', 'model returns a scalar')
     for key, obs in rec['outs'].items():
         exp = m.get(key)
+        if key == 'b' and st.get('tag') == 'permuted-labels' and exp and obs:
+            # `other` of a label-transposed addition: whether the ORIGINAL object gets lexsorted in place before the
+            # transposed copy is made is not part of the repaired behaviour -> compare its rows as a set
+            exp = dict(exp, qdata=sorted(exp['qdata']), sorted=None)
+            obs = dict(obs, qdata=sorted(obs['qdata']), sorted=None)
         if st['op'] == 'split' and exp and obs:
             # legs of a nested pipe stay LegPipe objects in the code; the model's pipes hold plain legs
             exp = dict(exp, legs=[dict(l, pipe=None) for l in exp['legs']])
@@ -213,7 +218,7 @@ def run(ctx):
 
 
 def search(ctx, reasons):
-    cases = load_corpus() + gen_cases(ctx, 'search', 600 if ctx.quick else 6000, 12)
+    cases = load_corpus() + gen_cases(ctx, 'search', 350 if ctx.quick else 6000, 12)
     return evaluate(ctx, cases, use_model=False)
 
 
